@@ -7,7 +7,9 @@
 (*  {"ev":"copy","kind":"ok"|"error"|"panic"|"unparseable",                *)
 (*        "out":[stream..],"nb":[{"id":i,"segs":[[cid,off,len]..]}..]}     *)
 (* As in ManifestTrace the judge does not stop at a rejected execution: it *)
-(* prints <<"REJECTED_LINE", l>> and goes on (checks/C17.py classifies).   *)
+(* prints <<"REJECTED_LINE", l>> and goes on (checks/C17.py classifies);   *)
+(* an accepted execution failing the drift-only clause CopyDriftOK is      *)
+(* printed as <<"DRIFT_LINE", l>>.                                         *)
 (***************************************************************************)
 EXTENDS OutputCopy, TraceIO
 
@@ -30,7 +32,8 @@ TraceCopy == /\ l <= Len(Trace)
              /\ l' = l + 1
              /\ UNCHANGED sc
              /\ IF skipping \/ CopyOK(Trace[l].kind, Trace[l].out, Trace[l].nb)
-                THEN UNCHANGED skipping
+                THEN /\ UNCHANGED skipping
+                     /\ skipping \/ CopyDriftOK(Trace[l].kind) \/ PrintT(<<"DRIFT_LINE", l>>)
                 ELSE PrintT(<<"REJECTED_LINE", l>>) /\ skipping' = TRUE
 
 TraceNext == TraceReset \/ TraceCopy
